@@ -5,7 +5,7 @@ import ast
 from .. import AnalysisError
 from ..callgraph import LOCK_WRAPPERS
 from ..cfg import ALL_KINDS, NORMAL_KINDS, iter_own
-from ..lib import always_followed_by, dominated_by, guard_forms, key_of, render, unlocked_writers
+from ..lib import always_followed_by, dominated_by, guard_forms, inline_locals, iteration_paths, key_of, render, unlocked_writers
 from ..report import describe, rule
 
 P = "C08"
@@ -60,6 +60,49 @@ def node_rows_go_to_node_file(ctx, r, rid):
     if n < 2:
         raise AnalysisError(rid, f"only {n} ResultsAggregator.append call sites found (expected the completion and the cancel site)")
 
+
+
+def rows_newline_terminated(ctx, r, rid):
+    """Every function of ResultsAggregator that writes rows leaves the file newline-terminated, so the next append
+    starts a new row: per-row `write(text); write("\\n")`, a joined text that ends in "\\n", or the csv writer.
+    A text built with "\\n".join(...) and written without a trailing newline glues the next row onto the last one."""
+    cl = ctx.cls(RA, rid)
+    n = 0
+    for m in cl.methods.values():
+        for c in iter_own(m.node):
+            if not (isinstance(c, ast.Call) and isinstance(c.func, ast.Attribute) and c.func.attr == "write" and len(c.args) == 1):
+                continue
+            a = c.args[0]
+            for nd in ctx.nodes_of(m, c):
+                a2 = inline_locals(ctx, m, a, nd)
+            txt = ctx.src(a2).replace('"', "'")
+            if not (isinstance(a2, ast.Call) and isinstance(a2.func, ast.Attribute) and a2.func.attr == "join" and txt.startswith("'\\n'.join(")):
+                continue
+            n += 1
+            r.bad(key_of(m, "rows written without a final newline"), m.loc(c),
+                  f"`{ctx.src(c)}` writes rows joined by newlines but no newline after the last one: the next append (a later collection round, a node's next result) continues that line - one result's last "
+                  "field and the next result's name are glued together, the later job has no row (it is reported missing) and the earlier one carries a corrupted HPC job id",
+                  "No row is lost, duplicated, truncated or attributed to another job, and the consolidated file always parses")
+    # per-row idiom: a write of a row text is followed by write("\n") in the same block
+    for m in cl.methods.values():
+        for st in iter_own(m.node):
+            if isinstance(st, ast.Expr) and isinstance(st.value, ast.Call) and isinstance(st.value.func, ast.Attribute) and st.value.func.attr == "write" and st.value.args:
+                a = st.value.args[0]
+                if isinstance(a, ast.Constant):
+                    continue
+                par = ctx.parents(m).get(id(st))
+                blk = next((getattr(par, f) for f in ("body", "orelse") if isinstance(getattr(par, f, None), list) and st in getattr(par, f)), [])
+                i = blk.index(st) if st in blk else -1
+                nxt = blk[i + 1] if 0 <= i < len(blk) - 1 else None
+                ends_nl = isinstance(a, ast.BinOp) and isinstance(a.op, ast.Add) and isinstance(a.right, ast.Constant) and str(a.right.value).endswith("\n")
+                follows = isinstance(nxt, ast.Expr) and isinstance(nxt.value, ast.Call) and isinstance(nxt.value.func, ast.Attribute) and nxt.value.func.attr == "write" and nxt.value.args and isinstance(nxt.value.args[0], ast.Constant) and nxt.value.args[0].value == "\n"
+                joined = isinstance(a, ast.Call) and isinstance(a.func, ast.Attribute) and a.func.attr == "join" and ctx.src(a.func.value).replace('"', "'") == "'\\n'"
+                if joined:
+                    continue   # reported above
+                n += 1
+                r.check(ends_nl or follows, f"{m.short}: the row written is terminated by a newline", key_of(m, "row without newline"), m.loc(st), f"`{ctx.src(st)}` is not followed by a newline write")
+    if n < 3:
+        raise AnalysisError(rid, f"only {n} row writes recognised in ResultsAggregator")
 
 @rule(P, "C08.1", "T7", "every write / delete of a results file happens inside a results-lock hold", min_obligations=5)
 def c08_1(ctx, r):
@@ -202,9 +245,14 @@ def c08_3(ctx, r):
     eff = ctx.direct_effects(cb)
     r.check("RESULT_APPEND" in eff and "RESULT_TRUNCATE" not in eff and "RESULT_DELETE" not in eff, "the callback appends to the consolidated file (mode 'a')", key_of(cb, "append mode"), cb.loc(),
             f"_append_processed_results has effects {sorted(eff)}: collected rows overwrite earlier ones", "ends up exactly once in the consolidated results")
-    loops = [n for n in iter_own(cb.node) if isinstance(n, ast.For)]
-    r.check(len(loops) == 1 and ctx.src(loops[0].iter) == "results" and not any(isinstance(x, (ast.If, ast.Continue, ast.Break)) for x in ast.walk(loops[0])), "every moved row is written, unconditionally", key_of(cb, "row loop"), cb.loc(),
-            "_append_processed_results skips rows")
+    loops = [n for n in iter_own(cb.node) if isinstance(n, ast.For) and ctx.src(n.iter) == cb.params[-1]]
+    comps = [n for n in iter_own(cb.node) if isinstance(n, (ast.ListComp, ast.GeneratorExp)) and ctx.src(n.generators[0].iter) == cb.params[-1] and not n.generators[0].ifs]
+    okall = bool(comps)
+    for lp in loops:
+        wr = [nd for c in ast.walk(lp) if isinstance(c, ast.Call) and isinstance(c.func, ast.Attribute) and c.func.attr in ("write", "writerow", "append") for nd in ctx.nodes_of(cb, c)]
+        okall = okall or (bool(wr) and not list(iteration_paths(ctx, cb, lp, avoid=wr)))
+    r.check(okall, "every moved row is written, unconditionally", key_of(cb, "row loop"), cb.loc(), "_append_processed_results skips rows")
+    rows_newline_terminated(ctx, r, "C08.3")
 
 
 @rule(P, "C08.4", "T1", "an append to an empty (deleted) file re-creates the header", min_obligations=2)
@@ -221,14 +269,18 @@ def c08_4(ctx, r):
         return
     for n, c in hdr:
         forms = guard_forms(ctx, fn, n)
-        ok = any(p and f.replace(" ", "") in ("f_out.tell()==0",) for f, p in forms)
+        import re as _re
+
+        withs = [w for w in iter_own(fn.node) if isinstance(w, ast.With) and w.items and w.items[0].optional_vars is not None and isinstance(w.items[0].optional_vars, ast.Name)]
+        fh = withs[0].items[0].optional_vars.id if withs else None
+        ok = any(p and fh and f.replace(" ", "") in (f"{fh}.tell()==0", f"0=={fh}.tell()") for f, p in forms)
         other = any("getsize" in f or "exists" in f or "stat()" in f for f, p in forms)
         if not ok and other:
             raise AnalysisError("C08.4", f"header guard has an unrecognised form: {sorted(f for f, p in forms)}")
         r.check(ok, "header is written iff the file is empty (tell() == 0)", key_of(fn, "header guard"), fn.loc(c),
                 f"the header is written under {sorted(('' if p else 'not ') + f for f, p in forms)}: either never (rows after a collection are lost) or on every append (rows parse as garbage)",
                 "the consolidated file always parses")
-    row = [(n, c) for n, c in writes if ctx.src(c.args[0]) == "text"]
+    row = [(n, c) for n, c in writes if c.args and ctx.src(c.args[0]) == fn.params[-1]]
     r.check(bool(row) and all(not guard_forms(ctx, fn, n) for n, c in row), "the row itself is written unconditionally", key_of(fn, "row write"), fn.loc(), "the result row is written conditionally")
 
 
@@ -246,6 +298,17 @@ def c08_5(ctx, r):
         ok = ud is not None and isinstance(ud[1], ast.Call) and ctx.cg.site_of(mv, ud[1]).calls_short(ctx.ix, f"{RA}._get_results")
     r.check(ok, "_move_results returns the very list it read and appended", key_of(mv, "returned rows"), mv.loc(), "the rows returned by _move_results are not the rows read from the node file and passed to the append callback",
             "reported as newly completed to exactly one submitter round")
+    # the reader hands back every row of the file (a skipped row is deleted with the node file: neither reported nor consolidated)
+    gr = ctx.fn(f"{RA}._get_results", "C08.5")
+    for lp in [x for x in iter_own(gr.node) if isinstance(x, ast.For)]:
+        apps = [nd for c in ast.walk(lp) if isinstance(c, ast.Call) and isinstance(c.func, ast.Attribute) and c.func.attr == "append" for nd in ctx.nodes_of(gr, c)]
+        if not apps:
+            continue
+        for end, conds, last in iteration_paths(ctx, gr, lp, avoid=apps):
+            r.bad(key_of(gr, f"row skipped under {sorted(('' if p else 'not ') + f for f, p in conds)}"), gr.loc(last.stmt if last.stmt is not None else lp),
+                  f"_get_results {'stops reading' if end == 'leave' else 'skips a row'} under {sorted(('' if p else 'not ') + f for f, p in conds)}: the collector appends only the rows it was given and then deletes the node "
+                  "file, so the skipped result (e.g. a job killed by a signal has a negative return code) is lost for good", "No row is lost")
+        r.ok("_get_results returns every row")
     pr = ctx.fn(f"{RA}._process_results", "C08.5")
     loops = [n for n in iter_own(pr.node) if isinstance(n, ast.For)]
     ok_loop = len(loops) == 1 and "_get_node_results_files()" in ctx.src(loops[0].iter) and not any(isinstance(x, (ast.If, ast.Continue, ast.Break, ast.Try)) for x in ast.walk(loops[0]))
